@@ -3,10 +3,13 @@ Source agreement for `Message::check_attribute_types` (C16): the verdict logic -
 as unsupported (through the translated `comprehension_required`), in which order they are listed, and that
 the 420 verdict takes precedence over the 400 verdict -- is re-translated from the source on every run and
 equals the model's `checkAttributeTypes`, which `C16.police_eq_spec` relates to RFC 8489 s6.3.1.  The two
-response constructors (`unknown_attributes`, `bad_request`) are not translated: their reason phrases are
-not pinned by the property; the correspondence run compares the fields C16 pins.
+response constructors (`unknown_attributes`, `bad_request`) are translated too; what is proved about them is
+exactly what C16 pins (error class with the request's method and transaction id, ERROR-CODE 420 / 400, the
+UNKNOWN-ATTRIBUTES list and when it is attached, the attribute order) and not the reason phrases, so a
+rewrite that only rewords a phrase breaks nothing here.
 -/
 import StunVerif.Gen.FnPolice
+import StunVerif.Props.C19
 namespace StunVerif.SrcFnPolice
 open StunVerif
 
@@ -29,5 +32,33 @@ theorem src_checkAttributeTypes (m : Msg) (sup req : List Nat) :
   unfold Gen.checkAttributeTypes checkAttributeTypes
   simp only [any_eq_contains, src_comprehensionRequired]
   split <;> simp_all
+
+/-- every method a type field can carry is below 4096 -/
+theorem method_lt (m : Msg) : m.method < 4096 := by
+  unfold Msg.method Spec.methodOfType Spec.bit
+  omega
+
+/-- `Message::unknown_attributes` as written in the source: the fields C16 pins -/
+theorem src_unknownAttributes_fields (src : Msg) (ts : List Nat) :
+    let r := Gen.unknownAttributes src ts
+    r.ty = Spec.interleave 3 src.method ∧ r.tid = src.tid ∧
+    r.types = (if ts.isEmpty then [0x8022, 0x0009] else [0x8022, 0x0009, 0x000A]) ∧
+    (∃ reason, (r.attrs.map BAttr.asRaw)[1]? = some (AttrVal.errorCode 420 reason).toRaw) ∧
+    (ts.isEmpty = false → (r.attrs.map BAttr.asRaw)[2]? = some (AttrVal.unknownAttributes ts).toRaw) := by
+  have hl := C19.rfc_layout 3 (by decide) src.method (method_lt src)
+  cases hts : ts.isEmpty <;>
+    simp [Gen.unknownAttributes, hts, addOrSame, Builder.add, Builder.addGuard, Builder.hasAnyAttribute, Builder.new,
+      Builder.intoOwned, BAttr.ty, BAttr.intoOwned, BAttr.asRaw, AttrVal.kind, Kind.code, AttrVal.toRaw, hl, tyMI, tyMI256, tyFP] <;>
+    exact ⟨_, rfl⟩
+
+/-- `Message::bad_request` as written in the source: the fields C16 pins -/
+theorem src_badRequest_fields (src : Msg) :
+    let r := Gen.badRequest src
+    r.ty = Spec.interleave 3 src.method ∧ r.tid = src.tid ∧ r.types = [0x8022, 0x0009] ∧
+    (∃ reason, (r.attrs.map BAttr.asRaw)[1]? = some (AttrVal.errorCode 400 reason).toRaw) := by
+  have hl := C19.rfc_layout 3 (by decide) src.method (method_lt src)
+  simp [Gen.badRequest, addOrSame, Builder.add, Builder.addGuard, Builder.hasAnyAttribute, Builder.new,
+    Builder.intoOwned, BAttr.ty, BAttr.intoOwned, BAttr.asRaw, AttrVal.kind, Kind.code, AttrVal.toRaw, hl, tyMI, tyMI256, tyFP]
+  exact ⟨_, rfl⟩
 
 end StunVerif.SrcFnPolice
